@@ -319,6 +319,13 @@ def _(prop, case, v):
     return case.get("kind") == "hist" and v.get("sig") == "key-condition-shape"
 
 
+@rule("KF-C09-empty-expression")
+def _(prop, case, v):
+    # the shadow runs through the clients with an expression text of no bytes
+    return case.get("kind") in ("match", "update") and str(v.get("sig", "")).startswith("client:") and (case.get("text") or "") == "" \
+        and "UpdateItem" not in str(v.get("sig"))
+
+
 @rule("KF-C16-unsupplied-placeholder")
 def _(prop, case, v):
     # names only: an unsupplied :value is rejected since 464433d
